@@ -7,6 +7,5 @@ namespace SV.Facts
 
 theorem unit_operations_are_single_sections :
     (unitGetSingleSection && unitPutSingleSection && unitRemoveSingleSection) = true := by decide
-theorem adapter_put_is_single_section : adapterPutSingleSection = true := by decide
 
 end SV.Facts
